@@ -283,6 +283,23 @@ static void gen_x509_seeds(void)
 			FZ_NOW - 3600, FZ_NOW + 86400, revoked, revoked_len, exts, extslen,
 			&subca.key, SM2_DEFAULT_ID, SM2_DEFAULT_ID_LENGTH, &p, &g_crllen));
 		seed2("fz_x509", "crl", 2, 0, g_crl, g_crllen);
+		{	/* optional fields absent: a CRL without crlExtensions and a v3 certificate without extensions */
+			static uint8_t bare[2048];
+			uint8_t serial[3] = { 0x31, 0x32, 0x33 };
+			size_t barelen = 0;
+			p = bare;
+			CHECK(x509_crl_sign_to_der(X509_version_v2, OID_sm2sign_with_sm3, subca.name, subca.namelen,
+				FZ_NOW - 3600, FZ_NOW + 86400, revoked, revoked_len, NULL, 0,
+				&subca.key, SM2_DEFAULT_ID, SM2_DEFAULT_ID_LENGTH, &p, &barelen));
+			seed2("fz_x509", "crl_no_exts", 2, 0, bare, barelen);
+			seed2("fz_x509", "crl_no_exts_print", 4, 24, bare, barelen);
+			p = bare; barelen = 0;
+			CHECK(x509_cert_sign_to_der(X509_version_v3, serial, sizeof(serial), OID_sm2sign_with_sm3,
+				subca.name, subca.namelen, FZ_NOW - 3600, FZ_NOW + 86400 * 30, client.name, client.namelen, &client.key, NULL, 0, NULL, 0, NULL, 0,
+				&subca.key, SM2_DEFAULT_ID, SM2_DEFAULT_ID_LENGTH, &p, &barelen));
+			seed2("fz_x509", "cert_no_exts", 0, 0, bare, barelen);
+			seed2("fz_x509", "cert_no_exts_list", 1, 5, bare, barelen);
+		}
 		seed2("fz_x509", "crl_print", 4, 24, g_crl, g_crllen);
 		seed2("fz_x509", "crl_revoked", 4, 19, revoked, revoked_len);
 		seed2("fz_x509", "crl_exts", 4, 22, exts, extslen);
